@@ -51,6 +51,7 @@ CONFIGS = [(0, 0, None), (1, 1, '+05:00'), (0, 1, '+05:00'), (1, 0, None)]   # (
 def plan(tier, seed):
     depth = 2 if tier == 'quick' else 3
     units = [{'kind': 'hist', 'lo': i, 'hi': i + 4} for i in range(0, len(EXPRS), 4)]
+    units += [{'kind': 'api', 'lo': i, 'hi': i + 8} for i in range(0, len(EXPRS), 8)]
     for ver in ('3.0', '3.1', '2.0'):
         for env_i in range(3):
             units.append({'kind': 'scope', 'ver': ver, 'env': env_i})
@@ -208,6 +209,14 @@ def step(su, op, cfg):
                 r = ('seq', (r,))
         elif op == 'iter':
             r = canon(list(su.selector.iter_select(doc, **kw)), doc)
+        elif op == 'module-select':
+            import elementpath
+            r = canon(elementpath.select(doc, su.expr, namespaces=su.ns, parser=su.pcls, **kw), doc)
+            if isinstance(r, tuple) and r[0] != 'seq':
+                r = ('seq', (r,))
+        elif op == 'module-iter':
+            import elementpath
+            r = canon(list(elementpath.iter_select(doc, su.expr, namespaces=su.ns, parser=su.pcls, **kw)), doc)
         elif op == 'iter-abandon':
             it = su.selector.iter_select(doc, **kw)
             first = next(it, None)
@@ -273,6 +282,39 @@ def run_hist(expr, ver, depth, acc):
                 break
 
 
+API_OPS = ['module-select', 'module-iter', 'select', 'iter', 'evaluate']
+
+
+def run_api(expr, ver, acc):
+    """every public entry point (the module-level select / iter_select, Selector.select / iter_select, a token with a context) gives
+    the result of a fresh evaluation under every configuration (document, variables, implicit timezone), alone and after one
+    module-level call with another configuration"""
+    from elementpath import ElementPathError
+    try:
+        Setup(expr, ver)
+    except ElementPathError:
+        return
+    for cfg in CONFIGS:
+        for op in API_OPS:
+            for pre in [None] + [(o, c) for o in ('module-select', 'module-iter') for c in CONFIGS if c != cfg]:
+                su = Setup(expr, ver)
+                if pre is not None:
+                    step(su, pre[0], pre[1])
+                r, effects = step(su, op, cfg)
+                acc.ev()
+                acc.cmp()
+                acc.case(cfg[2] is not None)
+                want = norm_ref(su.reference(cfg), 'select' if op == 'module-select' else 'iter' if op == 'module-iter' else op)
+                ok = not effects and (r == want or (r[0] == 'error' and want[0] == 'error'))
+                acc.outcome('api:%s:%s' % (op, 'ok' if ok else 'differs'))
+                if not ok:
+                    acc.violation('C05|api-entry-point|%s|%s|%s' % (op, 'side-effect' if effects else 'result-differs-from-fresh-evaluation', family(expr)),
+                                  '%s: %s ; %s with configuration %s%s' % (ver, expr, op, cfg, '' if pre is None else ' after %s %s' % pre),
+                                  {'effects': effects, 'observed': repr(r)[:300], 'fresh': repr(want)[:300]},
+                                  {'kind': 'api', 'expr': expr, 'ver': ver})
+                    break
+
+
 def family(expr):
     for key, fam in (('$f', 'function-variable'), ('$arr', 'array-variable'), ('$m', 'map-variable'), ('adjust-', 'adjust-timezone'), ('$d', 'dateTime-variable'), ('$t', 'time-variable'), ('map', 'map-array'), ('array', 'map-array'), ('[', 'path-or-array'),
                      ('function', 'inline-function'), ('for ', 'for'), ('let ', 'let'), ('some ', 'quantified'), ('every ', 'quantified'),
@@ -317,6 +359,13 @@ def bind(b, body):
 def programs(ver, depth):
     level = list(LEAVES)
     yield from level
+    if ver != '2.0':
+        # a function item created BEFORE a binding construct and called inside it sees the bindings of its creation (lexical scope)
+        for leaf in LEAVES:
+            for b in binders(ver):
+                yield ('let', [('f', ('func', [], leaf))], bind(b, ('dyncall', V('f'), [])))
+                for b0 in (('let', 'x'), ('for', 'x'), ('let', 'y')):
+                    yield bind(b0, ('let', [('f', ('func', [], leaf))], bind(b, ('dyncall', V('f'), []))))
     for _ in range(depth):
         nxt = []
         for e in level:
@@ -356,6 +405,12 @@ def run_scope(ver, env_i, depth, acc):
 
 
 def run_unit(unit, tier, acc):
+    if unit['kind'] == 'api':
+        for expr in EXPRS[unit['lo']:unit['hi']]:
+            for ver in (('3.1',) if tier == 'quick' else ('3.0', '3.1')):
+                run_api(expr, ver, acc)
+        acc.sample({'expression': EXPRS[unit['lo']], 'entry_points': API_OPS, 'configuration': 'xml.etree document, variables V2, timezone +05:00'})
+        return
     if unit['kind'] == 'hist':
         depth = 2 if tier == 'quick' else 3
         for expr in EXPRS[unit['lo']:unit['hi']]:
@@ -379,6 +434,9 @@ def replay(case, acc):
         d = SB.verdict(exp, got)
         if d:
             acc.violation('C05|scoping|' + d, SL.to_xpath(ast), {'expected': repr(exp), 'observed': repr(got)}, case)
+        return
+    if case['kind'] == 'api':
+        run_api(case['expr'], case['ver'], acc)
         return
     ops = [(o, c) for o in OPS for c in CONFIGS]
     su = Setup(case['expr'], case['ver'])
